@@ -1795,3 +1795,463 @@ Proof.
   - apply decl_topic_spec.
   - intros stmt n ann Hs Hin. destruct (Hall stmt n ann Hs Hin) as [sp ->]. apply spell_opt_hint.
 Qed.
+
+(* ================================================================== *)
+(* M. Timestamps and the clock play no role for what a tunable reads;   *)
+(*    a setup binds the tunables the class has at that moment           *)
+(* ================================================================== *)
+
+Lemma nt_write_at_accepted : forall m s k ty v t m' s',
+  nt_write_at m s k ty v t = (m', s', true) -> m' = nt_set m k ty v.
+Proof.
+  intros m s k ty v t m' s' H. unfold nt_write_at in H.
+  destruct (accepts (stamp_get s k) t); [|discriminate]. now injection H as <- _.
+Qed.
+
+Lemma nt_write_at_dropped : forall m s k ty v t m' s',
+  nt_write_at m s k ty v t = (m', s', false) -> m' = m /\ s' = s.
+Proof.
+  intros m s k ty v t m' s' H. unfold nt_write_at in H.
+  destruct (accepts (stamp_get s k) t); [discriminate|]. injection H as <- <-. now split.
+Qed.
+
+Lemma setup_loop_t_accepted : forall pfx ds nt st now b nt' st' b',
+  setup_loop_t pfx ds nt st now b = (nt', st', b', true) ->
+  setup_loop pfx ds nt b = (nt', b').
+Proof.
+  induction ds as [|[d ty] ds IH]; intros nt st now b nt' st' b' H; cbn [setup_loop_t setup_loop] in *.
+  - now injection H as <- _ <-.
+  - destruct (starts_with "_" (d_attr d)); [now apply (IH _ _ _ _ _ _ _ H)|].
+    destruct (d_wd d).
+    + destruct (nt_write_at nt st (key_in pfx (d_subtable d) (d_attr d)) ty
+                  (entry_value ty (d_default d)) now) as [[nt1 st1] ok1] eqn:E1.
+      destruct (setup_loop_t pfx ds nt1 st1 now _) as [[[nt2 st2] b2] ok2] eqn:E2.
+      injection H as <- <- <- Hok. apply andb_true_iff in Hok as [-> ->].
+      apply nt_write_at_accepted in E1. subst nt1. now apply (IH _ _ _ _ _ _ _ E2).
+    + destruct (setup_loop_t pfx ds _ st now _) as [[[nt2 st2] b2] ok2] eqn:E2.
+      injection H as <- <- <- Hok. simpl in Hok. subst ok2. now apply (IH _ _ _ _ _ _ _ E2).
+Qed.
+
+Lemma grun_cons : forall g o r,
+  grun g (o :: r) =
+  (fst (grun (fst (fst (gstep g o))) r),
+   (snd (fst (gstep g o)), snd (gstep g o)) :: snd (grun (fst (fst (gstep g o))) r)).
+Proof.
+  intros. simpl. destruct (gstep g o) as [[g1 e] ok]. simpl. destruct (grun g1 r). reflexivity.
+Qed.
+
+(* what one operation leaves of itself when the environment is forgotten,
+   and the classes after it *)
+Definition cl_after (cl : list (list classbody)) (o : gop) : list (list classbody) :=
+  match o with
+  | GClassAssign c m => match nth_error cl c with Some _ => classes_assign cl c m | None => cl end
+  | _ => cl
+  end.
+Definition gerase1 (cl : list (list classbody)) (o : gop) : list xop :=
+  match o with
+  | GX xo => [xo]
+  | GNtWriteAt k ty v _ => [XOp (NtWrite k ty v)]
+  | GSetupOf i c p n =>
+      match nth_error cl c with Some mro => [XOp (setup_class i mro p n)] | None => [] end
+  | _ => []
+  end.
+
+Lemma gerase_cons : forall cl o r,
+  gerase cl (o :: r) = (gerase1 cl o ++ gerase (cl_after cl o) r)%list.
+Proof.
+  intros cl [xo|d|k ty v s|k|c m|i c p n] r; simpl; try reflexivity.
+  destruct (nth_error cl c); reflexivity.
+Qed.
+
+Lemma gsetup_accepted : forall g i cls p c g' e,
+  gsetup g i cls p c = (g', e, true) ->
+  xstep (g_x g) (XOp (Setup i cls p c)) = (g_x g', match e with GEv e' => e' | _ => XDone end) /\
+  (exists e', e = GEv e') /\ g_classes g' = g_classes g /\ g_now g' = g_now g.
+Proof.
+  intros [[w tr] now st cl] i cls p c g' e H. unfold gsetup in H. cbn [g_x x_w x_truth g_now g_stamps g_classes] in H.
+  rewrite xstep_op. cbn [g_x x_w x_truth step].
+  destruct (class_topics cls) as [ds|].
+  - destruct (setup_loop_t (key_prefix p c) ds (w_nt w) st now []) as [[[nt' st'] b] ok] eqn:E.
+    injection H as <- <- ->. apply setup_loop_t_accepted in E. rewrite E.
+    cbn. repeat split. now eexists.
+  - injection H as <- <-. cbn. repeat split. now eexists.
+Qed.
+
+Lemma gwrite_accepted : forall g k ty v t g',
+  gwrite g k ty v t = (g', true) ->
+  g_x g' = mkx (mkworld (nt_set (w_nt (x_w (g_x g))) k ty v) (w_inst (x_w (g_x g)))) (x_truth (g_x g)) /\
+  g_classes g' = g_classes g /\ g_now g' = g_now g.
+Proof.
+  intros g k ty v t g' H. unfold gwrite in H.
+  destruct (nt_write_at (w_nt (x_w (g_x g))) (g_stamps g) k ty v t) as [[nt' st'] ok] eqn:E.
+  injection H as <- ->. apply nt_write_at_accepted in E. subst nt'. cbn. repeat split.
+Qed.
+
+Lemma xrun_one : forall x o, xrun x [o] = (fst (xstep x o), [snd (xstep x o)]).
+Proof. intros. simpl. now destruct (xstep x o). Qed.
+
+(* one accepted operation = the step of the environment-free model on what is
+   left of the operation *)
+Lemma gstep_erase : forall g o g' e,
+  gstep g o = (g', e, true) ->
+  xrun (g_x g) (gerase1 (g_classes g) o) = (g_x g', gevents [(e, true)]) /\
+  g_classes g' = cl_after (g_classes g) o.
+Proof.
+  intros g o g' e H. destruct o as [xo|d|k ty v s|k|c m|i c p n]; cbn [gerase1 cl_after].
+  - (* GX *)
+    rewrite xrun_one.
+    destruct xo as [[i cls p c|i a v|i a|k ty v|k]|i t]; cbn [gstep] in H.
+    + apply gsetup_accepted in H as [Hx [[e' ->] [Hc _]]]. rewrite Hx. cbn. now split.
+    + rewrite xstep_op. cbn [step].
+      destruct (inst_get (w_inst (x_w (g_x g))) i) as [b|]; [|injection H as <- <-; destruct g as [[w tr] ? ? ?]; now split].
+      destruct (bind_get b a) as [[[key ty] dflt]|]; [|injection H as <- <-; destruct g as [[w tr] ? ? ?]; now split].
+      destruct (gwrite g key ty (entry_value ty v) (g_now g)) as [g1 ok] eqn:E.
+      injection H as -> <- ->. apply gwrite_accepted in E as [Hx [Hc _]]. rewrite Hx. cbn. now split.
+    + destruct (xstep (g_x g) (XOp (PyRead i a))) as [x' e'] eqn:E. injection H as <- <-. cbn. now split.
+    + rewrite xstep_op. cbn [step].
+      destruct (gwrite g k ty (canon v) (g_now g)) as [g1 ok] eqn:E.
+      injection H as -> <- ->. apply gwrite_accepted in E as [Hx [Hc _]]. rewrite Hx. cbn. now split.
+    + destruct (xstep (g_x g) (XOp (NtRead k))) as [x' e'] eqn:E. injection H as <- <-. cbn. now split.
+    + destruct (xstep (g_x g) (XSetTruth i t)) as [x' e'] eqn:E. injection H as <- <-. cbn. now split.
+  - cbn [gstep] in H. injection H as <- <-. cbn. now split.
+  - cbn [gstep] in H. rewrite xrun_one, xstep_op. cbn [step].
+    destruct (gwrite g k ty (canon v) _) as [g1 ok] eqn:E.
+    injection H as -> <- ->. apply gwrite_accepted in E as [Hx [Hc _]]. rewrite Hx. cbn. now split.
+  - cbn [gstep] in H. injection H as <- <-. cbn. now split.
+  - cbn [gstep] in H. destruct (nth_error (g_classes g) c); injection H as <- <-; cbn; now split.
+  - cbn [gstep] in H. destruct (nth_error (g_classes g) c) as [mro|].
+    + rewrite xrun_one. unfold setup_class.
+      apply gsetup_accepted in H as [Hx [[e' ->] [Hc _]]]. rewrite Hx. cbn. now split.
+    + injection H as <- <-. cbn. now split.
+Qed.
+
+Lemma gevents_cons : forall e ok r, gevents ((e, ok) :: r) = (gevents [(e, ok)] ++ gevents r)%list.
+Proof. intros [e'|t| |] ok r; reflexivity. Qed.
+
+(* Every history in the environment (clock, timestamps supplied by clients,
+   classes that change) in which ntcore dropped no write as stale behaves,
+   operation by operation, as the same history with the environment forgotten *)
+Theorem grun_erase : forall h g,
+  all_accepted (snd (grun g h)) = true ->
+  g_x (fst (grun g h)) = fst (xrun (g_x g) (gerase (g_classes g) h)) /\
+  gevents (snd (grun g h)) = snd (xrun (g_x g) (gerase (g_classes g) h)).
+Proof.
+  induction h as [|o h IH]; intros g Hacc; [split; reflexivity|].
+  rewrite grun_cons in *. cbn [fst snd all_accepted forallb] in *.
+  apply andb_true_iff in Hacc as [Hok Hacc].
+  destruct (gstep g o) as [[g1 e] ok] eqn:E. cbn [fst snd] in *. subst ok.
+  destruct (gstep_erase _ _ _ _ E) as [Hx Hc].
+  rewrite gerase_cons, xrun_app, Hx. cbn [fst snd].
+  destruct (IH g1 Hacc) as [H1 H2]. rewrite Hc in H1, H2.
+  split; [exact H1|]. rewrite gevents_cons. now rewrite H2.
+Qed.
+
+(* ---- when is every write accepted? ------------------------------------ *)
+
+(* no topic carries a timestamp from the future *)
+Definition stamps_le (st : stamps) (now : Z) : Prop := forall k, (stamp_get st k <= now)%Z.
+
+Lemma accepts_le : forall st t, (st <= t)%Z -> accepts st t = true.
+Proof. intros. unfold accepts. apply orb_true_iff. right. now apply Z.leb_le. Qed.
+
+Lemma nt_write_at_timely : forall m s k ty v t now,
+  stamps_le s now -> (t <= now)%Z -> accepts (stamp_get s k) t = true ->
+  exists m' s', nt_write_at m s k ty v t = (m', s', true) /\ stamps_le s' now.
+Proof.
+  intros m s k ty v t now Hs Ht Ha. unfold nt_write_at. rewrite Ha.
+  destruct (is_dup m k ty v); do 2 eexists; (split; [reflexivity|]); [exact Hs|].
+  intros k'. simpl. destruct (String.eqb k k'); [exact Ht | apply Hs].
+Qed.
+
+Lemma setup_loop_t_timely : forall pfx ds nt st now b,
+  stamps_le st now ->
+  exists nt' st' b', setup_loop_t pfx ds nt st now b = (nt', st', b', true) /\ stamps_le st' now.
+Proof.
+  induction ds as [|[d ty] ds IH]; intros nt st now b Hs; cbn [setup_loop_t].
+  - do 3 eexists. split; [reflexivity | exact Hs].
+  - destruct (starts_with "_" (d_attr d)); [now apply IH|].
+    destruct (d_wd d).
+    + destruct (nt_write_at_timely nt st (key_in pfx (d_subtable d) (d_attr d)) ty
+                  (entry_value ty (d_default d)) now now Hs (Z.le_refl _) (accepts_le _ _ (Hs _)))
+        as [nt1 [st1 [E1 Hs1]]].
+      rewrite E1.
+      destruct (IH nt1 st1 now ((d_attr d, (key_in pfx (d_subtable d) (d_attr d), ty,
+                                            entry_value ty (d_default d))) :: b) Hs1)
+        as [nt2 [st2 [b2 [E2 Hs2]]]].
+      rewrite E2. do 3 eexists. split; [reflexivity | exact Hs2].
+    + destruct (IH (nt_set_default nt (key_in pfx (d_subtable d) (d_attr d)) ty
+                      (entry_value ty (d_default d))) st now
+                   ((d_attr d, (key_in pfx (d_subtable d) (d_attr d), ty,
+                                entry_value ty (d_default d))) :: b) Hs)
+        as [nt2 [st2 [b2 [E2 Hs2]]]].
+      rewrite E2. do 3 eexists. split; [reflexivity | exact Hs2].
+Qed.
+
+Lemma gwrite_timely : forall g k ty v t,
+  stamps_le (g_stamps g) (g_now g) -> (t <= g_now g)%Z ->
+  accepts (stamp_get (g_stamps g) k) t = true ->
+  exists g', gwrite g k ty v t = (g', true) /\ stamps_le (g_stamps g') (g_now g').
+Proof.
+  intros g k ty v t Hs Ht Ha. unfold gwrite.
+  destruct (nt_write_at_timely (w_nt (x_w (g_x g))) (g_stamps g) k ty v t (g_now g) Hs Ht Ha)
+    as [m' [s' [E Hs']]].
+  rewrite E. eexists. split; [reflexivity | exact Hs'].
+Qed.
+
+Lemma gsetup_timely : forall g i cls p c,
+  stamps_le (g_stamps g) (g_now g) ->
+  snd (gsetup g i cls p c) = true /\
+  stamps_le (g_stamps (fst (fst (gsetup g i cls p c)))) (g_now (fst (fst (gsetup g i cls p c)))).
+Proof.
+  intros g i cls p c Hs. unfold gsetup. destruct (class_topics cls) as [ds|]; [|now split].
+  destruct (setup_loop_t_timely (key_prefix p c) ds (w_nt (x_w (g_x g))) (g_stamps g) (g_now g) [] Hs)
+    as [nt' [st' [b' [E Hs']]]].
+  rewrite E. now split.
+Qed.
+
+Lemma sel_time_timely : forall now st s, (st <= now)%Z -> sel_timely s = true ->
+  (sel_time now st s <= now)%Z /\ accepts st (sel_time now st s) = true.
+Proof.
+  intros now st [| | |t] Hst Hs; try discriminate; cbn [sel_time].
+  - split; [lia | now apply accepts_le].
+  - destruct (Z.eqb st 0) eqn:E.
+    + split; [lia | now apply accepts_le].
+    + split; [exact Hst | apply accepts_le; lia].
+Qed.
+
+Lemma gstep_timely : forall g o,
+  stamps_le (g_stamps g) (g_now g) -> gop_timely o = true ->
+  snd (gstep g o) = true /\
+  stamps_le (g_stamps (fst (fst (gstep g o)))) (g_now (fst (fst (gstep g o)))).
+Proof.
+  intros g o Hs Ho. destruct o as [xo|d|k ty v s|k|c m|i c p n]; cbn [gstep].
+  - destruct xo as [[i cls p c|i a v|i a|k ty v|k]|i t]; cbn [gstep].
+    + now apply gsetup_timely.
+    + destruct (inst_get (w_inst (x_w (g_x g))) i) as [b|]; [|now split].
+      destruct (bind_get b a) as [[[key ty] dflt]|]; [|now split].
+      destruct (gwrite_timely g key ty (entry_value ty v) (g_now g) Hs (Z.le_refl _)
+                  (accepts_le _ _ (Hs _))) as [g' [E Hs']].
+      rewrite E. now split.
+    + destruct (xstep (g_x g) (XOp (PyRead i a))). now split.
+    + destruct (gwrite_timely g k ty (canon v) (g_now g) Hs (Z.le_refl _)
+                  (accepts_le _ _ (Hs _))) as [g' [E Hs']].
+      rewrite E. now split.
+    + destruct (xstep (g_x g) (XOp (NtRead k))). now split.
+    + destruct (xstep (g_x g) (XSetTruth i t)). now split.
+  - cbn [gop_timely] in Ho. apply Z.leb_le in Ho. split; [reflexivity|].
+    cbn. intros k. specialize (Hs k). lia.
+  - cbn [gop_timely] in Ho.
+    destruct (sel_time_timely (g_now g) (stamp_get (g_stamps g) k) s (Hs k) Ho) as [Ht Ha].
+    destruct (gwrite_timely g k ty (canon v) _ Hs Ht Ha) as [g' [E Hs']].
+    rewrite E. now split.
+  - now split.
+  - destruct (nth_error (g_classes g) c); now split.
+  - destruct (nth_error (g_classes g) c); [now apply gsetup_timely | now split].
+Qed.
+
+(* With a clock that never runs backwards and clients that stamp their
+   updates "now" or "same as the value they replace", nothing is ever dropped:
+   in particular under a PAUSED clock, where every operation between two
+   steps carries the same timestamp *)
+Theorem timely_all_accepted : forall h g,
+  stamps_le (g_stamps g) (g_now g) -> forallb gop_timely h = true ->
+  all_accepted (snd (grun g h)) = true.
+Proof.
+  induction h as [|o h IH]; intros g Hs Hh; [reflexivity|].
+  cbn [forallb] in Hh. apply andb_true_iff in Hh as [Ho Hh].
+  rewrite grun_cons. cbn [snd all_accepted forallb].
+  destruct (gstep_timely g o Hs Ho) as [-> Hs']. cbn [andb]. now apply IH.
+Qed.
+
+(* ... so such a history is, event by event, the history with the environment
+   forgotten *)
+Theorem timely_erase : forall h g,
+  stamps_le (g_stamps g) (g_now g) -> forallb gop_timely h = true ->
+  g_x (fst (grun g h)) = fst (xrun (g_x g) (gerase (g_classes g) h)) /\
+  gevents (snd (grun g h)) = snd (xrun (g_x g) (gerase (g_classes g) h)).
+Proof. intros. apply grun_erase. now apply timely_all_accepted. Qed.
+
+(* C09's read clause with the clock in the picture: after ANY interleaving of
+   attribute writes/reads, client writes stamped "now" or "same as the value
+   they replace", reads, clock steps (of any size, 0 included: a paused clock)
+   and truthiness changes, reading i.a gives the most recent write to its key,
+   however the timestamps of the writes compare *)
+Theorem read_latest_any_time : forall g h i t b a k ty d,
+  stamps_le (g_stamps g) (g_now g) -> forallb gop_timely h = true ->
+  no_setup (erase (gerase (g_classes g) h)) = true ->
+  inst_get (w_inst (x_w (g_x g))) i = Some b -> bind_get b a = Some (k, ty, d) ->
+  tunable_get (x_w (g_x (fst (grun g h)))) (Some (i, t)) a =
+  GResult (match last_write (x_w (g_x g)) (erase (gerase (g_classes g) h)) k with
+           | Some v => EvVal v
+           | None => py_read (x_w (g_x g)) i a
+           end).
+Proof.
+  intros g h i t b a k ty d Hs Hh Hn Hi Ha.
+  destruct (timely_erase h g Hs Hh) as [-> _].
+  eapply read_latest_any_truth; eassumption.
+Qed.
+
+(* the event such a read emits in the middle of the history *)
+Theorem read_latest_event_any_time : forall g h1 h2 i b a k ty d,
+  stamps_le (g_stamps g) (g_now g) ->
+  forallb gop_timely (h1 ++ GX (XOp (PyRead i a)) :: h2) = true ->
+  no_setup (erase (gerase (g_classes g) h1)) = true ->
+  inst_get (w_inst (x_w (g_x g))) i = Some b -> bind_get b a = Some (k, ty, d) ->
+  nth (length (gerase (g_classes g) h1))
+      (gevents (snd (grun g (h1 ++ GX (XOp (PyRead i a)) :: h2)))) XDone =
+  XEv (match last_write (x_w (g_x g)) (erase (gerase (g_classes g) h1)) k with
+       | Some v => EvVal v
+       | None => py_read (x_w (g_x g)) i a
+       end).
+Proof.
+  intros g h1 h2 i b a k ty d Hs Hh Hn Hi Ha.
+  destruct (timely_erase _ g Hs Hh) as [_ ->].
+  assert (E : forall h cl, exists cl',
+            gerase cl (h ++ GX (XOp (PyRead i a)) :: h2) =
+            (gerase cl h ++ XOp (PyRead i a) :: gerase cl' h2)%list).
+  { induction h as [|o h IH]; intros cl; [now exists cl|].
+    rewrite <- app_comm_cons, !gerase_cons. destruct (IH (cl_after cl o)) as [cl' ->].
+    exists cl'. now rewrite app_assoc. }
+  destruct (E h1 (g_classes g)) as [cl' ->].
+  eapply read_latest_event_any_truth; eassumption.
+Qed.
+
+(* a stale update -- stamped older than the value the topic holds -- is
+   dropped by ntcore: nothing changes (the hypothesis of [grun_erase] is needed) *)
+Theorem stale_write_dropped : forall g k ty v s,
+  accepts (stamp_get (g_stamps g) k) (sel_time (g_now g) (stamp_get (g_stamps g) k) s) = false ->
+  gstep g (GNtWriteAt k ty v s) = (g, GEv (XEv EvWrote), false).
+Proof.
+  intros [[[nt ins] tr] now st cl] k ty v s H. cbn [g_now g_stamps] in H.
+  cbn [gstep]. unfold gwrite, nt_write_at. cbn [g_now g_stamps g_x x_w w_nt w_inst x_truth g_classes].
+  rewrite H. reflexivity.
+Qed.
+
+(* ---- classes that change ---------------------------------------------- *)
+
+Lemma body_get_filter_other : forall b x n, x <> n ->
+  body_get (filter (fun y => negb (String.eqb (member_name y) x)) b) n = body_get b n.
+Proof.
+  induction b as [|y b IH]; intros x n Hne; [reflexivity|]. cbn [filter body_get].
+  destruct (String.eqb (member_name y) x) eqn:E; cbn [negb].
+  - apply String.eqb_eq in E. destruct (String.eqb (member_name y) n) eqn:E2.
+    + apply String.eqb_eq in E2. congruence.
+    + now apply IH.
+  - cbn [body_get]. destruct (String.eqb (member_name y) n); [reflexivity | now apply IH].
+Qed.
+
+Lemma body_get_assign : forall b m n,
+  body_get (body_assign b m) n =
+  if String.eqb (member_name m) n then Some m else body_get b n.
+Proof.
+  intros b m n. unfold body_assign. cbn [body_get].
+  destruct (String.eqb (member_name m) n) eqn:E; [reflexivity|].
+  apply body_get_filter_other. intros Hn. subst n. now rewrite String.eqb_refl in E.
+Qed.
+
+(* `cls.name = obj`: attribute lookup on the class finds obj under that name
+   and what it found before under every other name *)
+Theorem class_getattr_assign : forall mro m n,
+  class_getattr (mro_assign mro m) n =
+  if String.eqb (member_name m) n then Some m else class_getattr mro n.
+Proof.
+  intros [|b r] m n; cbn [mro_assign class_getattr].
+  - cbn [body_get]. now destruct (String.eqb (member_name m) n).
+  - rewrite body_get_assign. now destruct (String.eqb (member_name m) n).
+Qed.
+
+Lemma classes_assign_same : forall cl c m mro,
+  nth_error cl c = Some mro -> nth_error (classes_assign cl c m) c = Some (mro_assign mro m).
+Proof.
+  induction cl as [|x cl IH]; intros [|c] m mro H; try discriminate; cbn in *.
+  - now injection H as ->.
+  - now apply IH.
+Qed.
+
+Lemma classes_assign_other : forall cl c m c', c' <> c ->
+  nth_error (classes_assign cl c m) c' = nth_error cl c'.
+Proof.
+  induction cl as [|x cl IH]; intros [|c] m [|c'] H; try reflexivity; try congruence.
+  cbn. apply IH. congruence.
+Qed.
+
+(* assigning to a class attribute touches nothing but that class: no topic,
+   no timestamp, no binding of an instance that is already set up, no other
+   class *)
+Theorem class_assign_changes_nothing_else : forall g c m,
+  let g' := fst (fst (gstep g (GClassAssign c m))) in
+  g_x g' = g_x g /\ g_stamps g' = g_stamps g /\ g_now g' = g_now g /\
+  snd (gstep g (GClassAssign c m)) = true /\
+  forall c', c' <> c -> nth_error (g_classes g') c' = nth_error (g_classes g) c'.
+Proof.
+  intros g c m. cbn [gstep]. destruct (nth_error (g_classes g) c) eqn:E; cbn.
+  - repeat split. intros c' Hc. now apply classes_assign_other.
+  - repeat split.
+Qed.
+
+(* setup_tunables binds the tunables the class has AT THAT MOMENT: per public
+   name the tunable attribute lookup finds now, at the documented key, with
+   its topic type, its default and its writeDefault flag *)
+Theorem setup_binds_current_class : forall g i c mro p n d,
+  stamps_le (g_stamps g) (g_now g) ->
+  nth_error (g_classes g) c = Some mro ->
+  (forall b x, In b mro -> In x b -> no_slash (member_name x) = true) ->
+  class_getattr mro (d_attr d) = Some (MTun d) -> public d = true ->
+  snd (fst (gstep g (GSetupOf i c p n))) = GEv (XEv (EvSetup true)) ->
+  snd (gstep g (GSetupOf i c p n)) = true /\
+  exists b ty,
+    inst_get (w_inst (x_w (g_x (fst (fst (gstep g (GSetupOf i c p n))))))) i = Some b /\
+    decl_topic (d_default d) (d_hint d) = Ok ty /\
+    bind_get b (d_attr d) =
+      Some (key_of p n (d_subtable d) (d_attr d), ty, entry_value ty (d_default d)) /\
+    nt_get (w_nt (x_w (g_x (fst (fst (gstep g (GSetupOf i c p n)))))))
+           (key_of p n (d_subtable d) (d_attr d)) =
+    if d_wd d then Some (ty, entry_value ty (d_default d))
+    else match nt_get (w_nt (x_w (g_x g))) (key_of p n (d_subtable d) (d_attr d)) with
+         | Some tv => Some tv
+         | None => Some (ty, entry_value ty (d_default d))
+         end.
+Proof.
+  intros g i c mro p n d Hs Hc Hns Hg Hpub Hev. cbn [gstep] in *. rewrite Hc in *.
+  destruct (gsetup_timely g i (class_members mro) p n Hs) as [Hok _].
+  split; [exact Hok|].
+  destruct (gsetup g i (class_members mro) p n) as [[g2 e] ok] eqn:E. cbn [fst snd] in *. subst ok e.
+  apply gsetup_accepted in E as [Hx _]. rewrite xstep_op in Hx. cbn iota in Hx. injection Hx as Hx He.
+  rewrite <- Hx. cbn [x_w].
+  apply (setup_hierarchy (x_w (g_x g)) i mro p n d Hns Hg Hpub). unfold setup_class. exact He.
+Qed.
+
+(* ... in particular after `cls.A = tunable(v)` (what every construction of a
+   magicbot StateMachine does with state_names / state_descriptions): an
+   instance set up afterwards has A bound to the NEW tunable *)
+Theorem setup_after_class_assign : forall g i c mro p n d,
+  stamps_le (g_stamps g) (g_now g) ->
+  nth_error (g_classes g) c = Some mro ->
+  (forall b x, In b (mro_assign mro (MTun d)) -> In x b -> no_slash (member_name x) = true) ->
+  public d = true ->
+  let g1 := fst (fst (gstep g (GClassAssign c (MTun d)))) in
+  snd (fst (gstep g1 (GSetupOf i c p n))) = GEv (XEv (EvSetup true)) ->
+  exists b ty,
+    inst_get (w_inst (x_w (g_x (fst (fst (gstep g1 (GSetupOf i c p n))))))) i = Some b /\
+    decl_topic (d_default d) (d_hint d) = Ok ty /\
+    bind_get b (d_attr d) =
+      Some (key_of p n (d_subtable d) (d_attr d), ty, entry_value ty (d_default d)) /\
+    nt_get (w_nt (x_w (g_x (fst (fst (gstep g1 (GSetupOf i c p n)))))))
+           (key_of p n (d_subtable d) (d_attr d)) =
+    if d_wd d then Some (ty, entry_value ty (d_default d))
+    else match nt_get (w_nt (x_w (g_x g))) (key_of p n (d_subtable d) (d_attr d)) with
+         | Some tv => Some tv
+         | None => Some (ty, entry_value ty (d_default d))
+         end.
+Proof.
+  intros g i c mro p n d Hs Hc Hns Hpub g1 Hev.
+  assert (E1 : g1 = mkg (g_x g) (g_now g) (g_stamps g) (classes_assign (g_classes g) c (MTun d))).
+  { unfold g1. cbn [gstep]. now rewrite Hc. }
+  assert (Hg : class_getattr (mro_assign mro (MTun d)) (d_attr d) = Some (MTun d)).
+  { rewrite class_getattr_assign. cbn [member_name]. now rewrite String.eqb_refl. }
+  destruct (setup_binds_current_class g1 i c (mro_assign mro (MTun d)) p n d) as [_ H]; try assumption.
+  - now rewrite E1.
+  - rewrite E1. cbn [g_classes]. now apply classes_assign_same.
+  - assert (Ex : g_x g1 = g_x g) by now rewrite E1.
+    rewrite Ex in H. exact H.
+Qed.
